@@ -318,3 +318,90 @@ func (fs *ModelFS) PowerLossStates(path string, splits func(n int) []int) []Dura
 	}
 	return out
 }
+
+type inodeCand struct {
+	desc string
+	data []byte
+}
+
+func inodeCandidates(ino *inode, splits func(n int) []int) []inodeCand {
+	content := append([]byte(nil), ino.synced...)
+	out := []inodeCand{{fmt.Sprintf("data-ops-durable=0/%d", len(ino.pend)), content}}
+	for k, o := range ino.pend {
+		if !o.trunc {
+			n := len(o.data)
+			for _, s := range splits(n) {
+				if s <= 0 || s >= n {
+					continue
+				}
+				out = append(out, inodeCand{fmt.Sprintf("data-ops-durable=%d/%d+%d/%dB", k, len(ino.pend), s, n), applyData(content, o, s, false)})
+			}
+			out = append(out, inodeCand{fmt.Sprintf("data-ops-durable=%d/%d+zeros", k, len(ino.pend)), applyData(content, o, n, true)})
+		}
+		content = applyData(content, o, len(o.data), false)
+		out = append(out, inodeCand{fmt.Sprintf("data-ops-durable=%d/%d", k+1, len(ino.pend)), content})
+	}
+	return out
+}
+
+// VolatileDir returns base name -> content of the regular files of dir in the page-cache view.
+func (fs *ModelFS) VolatileDir(dir string) map[string][]byte {
+	out := map[string][]byte{}
+	for p, ino := range fs.vns {
+		if filepath.Dir(p) == dir && !ino.dir {
+			out[filepath.Base(p)] = ino.vol
+		}
+	}
+	return out
+}
+
+// DurableDirState is one possible on-disk state of a whole directory after power loss.
+type DurableDirState struct {
+	Desc  string
+	Files map[string][]byte
+}
+
+// PowerLossDirStates enumerates durable states of all regular files of dir
+// (cross product of the per-file choices, at most max per namespace prefix).
+func (fs *ModelFS) PowerLossDirStates(dir string, splits func(n int) []int, max int) (out []DurableDirState, capped bool) {
+	for d := 0; d <= len(fs.nsOps); d++ {
+		ns := fs.durableNS(d)
+		var names []string
+		for p, ino := range ns {
+			if filepath.Dir(p) == dir && !ino.dir {
+				names = append(names, p)
+			}
+		}
+		sort.Strings(names)
+		cands := make([][]inodeCand, len(names))
+		for i, p := range names {
+			cands[i] = inodeCandidates(ns[p], splits)
+		}
+		idx := make([]int, len(names))
+		for n := 0; ; n++ {
+			if n >= max {
+				capped = true
+				break
+			}
+			st := DurableDirState{Desc: fmt.Sprintf("ns-ops-durable=%d/%d", d, len(fs.nsOps)), Files: map[string][]byte{}}
+			for i, p := range names {
+				c := cands[i][idx[i]]
+				st.Files[filepath.Base(p)] = c.data
+				st.Desc += fmt.Sprintf(" %s:%s", filepath.Base(p), c.desc)
+			}
+			out = append(out, st)
+			i := 0
+			for ; i < len(idx); i++ {
+				idx[i]++
+				if idx[i] < len(cands[i]) {
+					break
+				}
+				idx[i] = 0
+			}
+			if i == len(idx) {
+				break
+			}
+		}
+	}
+	return out, capped
+}
